@@ -746,4 +746,48 @@ theorem runClosures_congr {τ : Type} (scripts : HId → Scripts ElementOp) (who
     · exact ⟨rfl, h'⟩
     · exact ih _ _ _ h'
 
+theorem currentElementData_congr {s1 s2 : St} (h : EqT s1 s2) : s2.currentElementData = s1.currentElementData := by
+  unfold St.currentElementData
+  rw [h.vm, h.descs]
+
+/-- **`tokStartTag` respects `EqT`** -/
+theorem tokStartTag_congr (cfg : Cfg) (s1 s2 : St) (h : EqT s1 s2) (name : Bytes) (attrs : List (Bytes × Bytes × AttrOutline))
+    (ns : Model.Ns) (sc : Bool) (raw : Bytes) (src : Range) (base : Nat) :
+    (tokStartTag cfg s2 name attrs ns sc raw src base).2.err = (tokStartTag cfg s1 name attrs ns sc raw src base).2.err ∧
+    EqT (tokStartTag cfg s1 name attrs ns sc raw src base).1 (tokStartTag cfg s2 name attrs ns sc raw src base).1 := by
+  unfold tokStartTag
+  rw [h.disp]
+  split
+  · cases attrs.mapM (attrConv raw (src.start - base)) with
+    | none => exact ⟨rfl, h⟩
+    | some as =>
+      dsimp only
+      generalize (if 0 < s1.disp.removedContent then
+        StartTag.apply { name := name, attributes := as, ns := nsEdit ns, selfClosing := sc, raw := raw } (StartTagOp.mut MutOp.remove)
+        else { name := name, attributes := as, ns := nsEdit ns, selfClosing := sc, raw := raw }) = st
+      obtain ⟨c1, c2⟩ := runClosures_congr cfg.elementScripts Who.element (seeElement ns) Element.applyOps src
+        s1.disp.element.forEachActive s1 s2 (Element.new st s1.disp.nextElementCanHaveContent) h
+      rw [c1]
+      have hscr : (fun (x : HId) (_ : Nat) => elemActOf s1.disp.nextElementCanHaveContent
+            (cyc (cfg.elementScripts x) (invGet s2.inv (kElement, x))).1) =
+          (fun (x : HId) (_ : Nat) => elemActOf s1.disp.nextElementCanHaveContent
+            (cyc (cfg.elementScripts x) (invGet s1.inv (kElement, x))).1) := by
+        funext x _; rw [h.inv x]
+      rw [hscr]
+      generalize runClosures cfg.elementScripts kElement Who.element (seeElement ns) Element.applyOps src
+        s1.disp.element.forEachActive s2 (Element.new st s1.disp.nextElementCanHaveContent) = r2 at c2
+      generalize runClosures cfg.elementScripts kElement Who.element (seeElement ns) Element.applyOps src
+        s1.disp.element.forEachActive s1 (Element.new st s1.disp.nextElementCanHaveContent) = r1 at c2
+      rw [c2.disp, c2.ord, currentElementData_congr c2, c2.descs, c2.payloads]
+      split
+      · exact ⟨rfl, c2⟩
+      · cases r1.1.disp.handleStartTag (fun x _ => elemActOf s1.disp.nextElementCanHaveContent
+            (cyc (cfg.elementScripts x) (invGet s1.inv (kElement, x))).1) r1.1.ord r1.1.currentElementData with
+        | error p => exact ⟨rfl, c2⟩
+        | ok t =>
+          obtain ⟨d, desc, iv⟩ := t
+          dsimp only
+          exact ⟨rfl, ⟨rfl, c2.vm, rfl, c2.pending, rfl, rfl, c2.fault, c2.inv⟩⟩
+  · exact ⟨rfl, h⟩
+
 end LolHtml.Thm.Full
